@@ -31,7 +31,7 @@ func init() {
 		Level: "exploration",
 		Rule: "E1 bounded-exhaustive enumeration of the kind grammar T ::= scalar | string | [k]T | []T | map[K]T | *T | interface{} | struct{T,…} built with reflect to depth 3 (thorough 4) (every depth-1 type, then W types spread over each level as elements of the next): all 17 scalar kinds (bool, int8..64, int, uint8..64, uint, uintptr, float32/64, complex64/128) at every leaf position of depth-1 composites, a 7-type leaf subset plus 9 types of the previous level for binary structs; arrays of 0 and 2 elements; struct arity 1 and 2; map keys string/int32/uint; " +
 			"values per type from a shape alphabet (slices nil/empty/1/2 elements, maps nil/empty/1/2 entries, pointers nil/non-nil, interfaces nil/scalar/string/pointer/struct, strings \"\",\"a\",\"abc\" and 40 bytes; over leaf types also slices of 9, 70 and 1025 elements and maps of 9, 40 and 1000 entries; pointer values are deliberately REUSED in both elements of arrays and both fields of structs, so shared acyclic pointers occur). Oracle: the generator returns (value, size) and computes the size while building (headers 16/24/8/8/16, 8 for int/uint/uintptr; 64-bit platform asserted). size.Of on every value; Stat(v,d,m) for d in {0,1,3}, m in {0,1,10} and the AvgOf form: the number on the first line equals the expected size. " +
-			"Plus 14 hand-written values of Go types reflect cannot build (unexported and embedded fields, named types, padding, interior pointers of another type into the object being walked - to its first field or element and further in), and a SEQUENCE of 13 values of distinct types that print alike (seven local types all called props.rec, two package-level types both called model.Rec; in pairs also equal in Size and Kind), measured in order by one goroutine, forward then backward: nothing may be carried from one type to a like-named one. A case is one (value, function) pair; non-trivial when the type is composite.",
+			"Plus 18 hand-written values (among them maps whose struct / array / interface keys differ in structural size) of Go types reflect cannot build (unexported and embedded fields, named types, padding, interior pointers of another type into the object being walked - to its first field or element and further in), and a SEQUENCE of 13 values of distinct types that print alike (seven local types all called props.rec, two package-level types both called model.Rec; in pairs also equal in Size and Kind), measured in order by one goroutine, forward then backward: nothing may be carried from one type to a like-named one. A case is one (value, function) pair; non-trivial when the type is composite.",
 		Assumptions: []string{
 			"64-bit platform (asserted at start)",
 			"types deeper than D, struct arity > 2 and cyclic values are not generated (cycles are excluded by the statement)",
@@ -286,6 +286,16 @@ func c20Handwritten() c20Type {
 		1+8+(16+3)+(8+4)+(16+16+1)+(8+(16+1)+8+(16+2)+8)+(24+12), "all-unexported struct, filled")
 	add(&c20Unexp{a: 1}, 8+1+8+16+8+16+8+24, "pointer to unexported struct")
 	add([]interface{}{c20MyInt(1), nil, &i32, c20Emb{5}}, 24+(16+8)+16+(16+8+4)+(16+4), "[]interface{} of named values")
+	// maps whose keys are composite and differ in structural size among themselves (a key type's top-level
+	// kind says nothing about what the keys hold): struct and array keys with strings inside, interface keys
+	add(map[c20HostPort]int8{{"a", 1}: 1, {"hello", 2}: 2, {"a-longer-host", 3}: 3},
+		8+((16+1)+4+1)+((16+5)+4+1)+((16+13)+4+1), "map[struct{Host string; Port int32}]int8, 3 keys of different sizes")
+	add(map[[2]string]int8{{"a", "bb"}: 1, {"cccc", ""}: 2},
+		8+((16+1)+(16+2)+1)+((16+4)+(16+0)+1), "map[[2]string]int8, 2 keys of different sizes")
+	add(map[interface{}]int8{"abc": 1, int8(1): 2, [2]string{"x", "yy"}: 3},
+		8+(16+(16+3)+1)+(16+1+1)+(16+(16+1)+(16+2)+1), "map[interface{}]int8 with a string, an int8 and a [2]string key")
+	add(map[c20HostPort][]string{{"k", 1}: {"v", "ww"}, {"kkkkkkkk", 2}: nil},
+		8+((16+1)+4+(24+(16+1)+(16+2)))+((16+8)+4+24), "map[struct{Host string; Port int32}][]string")
 	// interior pointers: acyclic values in which a pointer of ANOTHER type points into the very
 	// object being walked - to its first field or element (same address as the object), or further in
 	cur := &c20Cursor{val: 5}
@@ -306,6 +316,11 @@ func c20Handwritten() c20Type {
 		e *int64
 	}{arr, &arr[0]}, (8+24)+(8+8), "struct{a *[3]int64; e *int64} with e = &a[0]")
 	return t
+}
+
+type c20HostPort struct {
+	Host string
+	Port int32
 }
 
 type c20Cursor struct {
